@@ -131,7 +131,7 @@ def side_checks(ctx, env, res, opts, side, k):
         V, mag = oracles.lmi_value(m, val)
         if V.size:
             worst = max(worst, max(-float(np.min(np.linalg.eigvalsh((V + V.T) / 2))), float(np.max(np.abs(V - V.T)))) / (1 + mag))
-    if worst > 5 * k:
+    if worst > 5 * k and not oracles.solver_point_infeasible(pep.wrapper, ctx):
         ctx.fail("%s:instance-infeasible" % side, "a sent constraint / LMI is violated by %.3e (relative) at the returned instance" % worst)
     primal = float(pep.objective.eval())
     if opts.get("ret", "dual") == "dual" and ok and abs(res - cert["const"]) > 1e-7 * (1 + abs(cert["const"]) + cert["scale"]):
